@@ -741,3 +741,19 @@ pub fn run(tier_name: &str, seed: u64) -> i32 {
     };
     report::finish(meta, tally, wall, &|v| replay_all(&v["case"]))
 }
+
+
+pub fn digest(seed: u64, i: u64) -> Vec<String> {
+    let t = tier("quick");
+    let Some((case, _)) = gen_case(seed, 9000 + i % 5, i, &t) else { return vec![format!("C12 {i} - no-case")] };
+    let robot = Arc::new(case.cell.build_probed_robot());
+    case.cfgs
+        .iter()
+        .enumerate()
+        .map(|(j, cfg)| {
+            let out = execute(&robot, &case, cfg);
+            let res = out.result.as_ref().map(|o| format!("{:?} {:?}", o.result, o.trace.events.len()));
+            format!("C12 {i} {j} {} {:016x} {}", out.log.hex(), simctx::name_hash(&format!("{res:?}")), out.schedule.len())
+        })
+        .collect()
+}
